@@ -58,9 +58,9 @@ def gen_cases(tier, seed):
     for P in ([1, 2] if q else [1, 2, 3]):
         for pat in (0, 1, 2):
             for en in (True, False):
-                for aux in (["none", "both"] if q else ["none", "param", "obs", "both"]):
+                for aux in ["none", "param", "obs", "both"]:
                     k += 1
-                    if q and k % 3:
+                    if q and k % 4 != (P + pat) % 4:
                         continue
                     cases.append(dict(mode="insolve", P=P, patience=pat, enabled=en, aux=aux, seed=seed * 1000 + k, cost=3.0))
     return cases
@@ -308,8 +308,32 @@ def run_insolve(case, rec):
     n = 9
     out = guard.call(jinns.solve, n_iter=n, init_params=Pb["params"], data=Pb["data"], loss=Pb["loss"], optimizer=opt,
                      param_data=Pb["param_data"], obs_data=Pb["obs_data"], validation=val, verbose=False)
+    # the reference does NOT call the real ValidationLoss: it steps the validation generators itself, evaluates the
+    # validation loss on its own successive batches and applies the automaton of Appendix A.4
+    class RefVal:
+        def __init__(self):
+            self.call_every, self.best, self.c = P, np.inf, 0
+            self.g = [vdata, vparam, vobs]
+
+        def __call__(self, params):
+            self.g[0], b = self.g[0].get_batch()
+            if self.g[1] is not None:
+                self.g[1], pb = self.g[1].get_batch()
+                b = jinns.data.append_param_batch(b, pb)
+            if self.g[2] is not None:
+                self.g[2], ob = self.g[2].get_batch()
+                b = jinns.data.append_obs_batch(b, ob)
+            v = float(vloss(params, b)[0])
+            stop = bool(en and self.c == pat)
+            improve = v < self.best
+            if improve:
+                self.best, self.c = v, 0
+            else:
+                self.c += 1
+            return self, stop, v, improve
+
     ref = refloop.ref_loop(n, Pb["params"], Pb["data"], Pb["loss"], opt, param_data=Pb["param_data"], obs_data=Pb["obs_data"],
-                           prime=1, validation=val)
+                           prime=1, validation=RefVal())
     rec.count("builtin_in_solve_runs")
     nd = ref["n_done"]
     if nd < n:
